@@ -72,7 +72,11 @@ Inductive case :=
 | CKey (t : ktype) (first : list tv) (apps : list (list tv)) (htab : list (bytes * bytes)) (built : option rle)
 | CSplit (key : rle) (res : option (list rle))
 | CToBytes (v : tv) (out : bytes) (back : option Z)     (* back: Int64() of a Value holding out, for ints *)
-| CHist (cs : list cdesc) (ops : list (hop * cres)).
+| CHist (cs : list cdesc) (ops : list (hop * cres))
+(* keys of sibling paths root++s below one parent over the caller's prefix pre:
+   observed right after construction (early), at the end (late), and with tail appended at the end (deep) *)
+| CSib (hashed : bool) (pre : rle) (root : list tv) (sibs : list (list tv)) (tail : list tv)
+       (htab : list (bytes * bytes)) (early late deep : list rle).
 
 Section WithH.
   Variable H : bytes -> bytes.
@@ -146,6 +150,13 @@ Definition check (c : case) : bool :=
       | _, _ => true
       end
   | CHist cs ops => hrun (fun x => x) cs [] ops
+  | CSib hashed pre root sibs tail htab early late deep =>
+      let key (parts : list bytes) : bytes :=
+        if hashed then b_build (tabH htab) (b_append (new_hash_key (unrle pre) (tbs root)) parts)
+        else append_keys (append_keys (unrle pre) (tbs root)) parts in
+      let ks := map (fun s => key (tbs s)) sibs in
+      let kd := map (fun s => key (tbs s ++ tbs tail)) sibs in
+      lbytes_eqb ks (map unrle early) && lbytes_eqb ks (map unrle late) && lbytes_eqb kd (map unrle deep)
   end.
 
 Definition mismatches (l : list case) : list nat := failing check l.
